@@ -11,6 +11,30 @@ deviation cost is <= bound.
 import hashlib
 
 
+def _cadd(a, b):
+    if isinstance(a, tuple) or isinstance(b, tuple):
+        if not isinstance(a, tuple):
+            a = (a,) * len(b) if a == 0 else (a,) + (0,) * (len(b) - 1)
+        if not isinstance(b, tuple):
+            b = (b,) * len(a) if b == 0 else (b,) + (0,) * (len(a) - 1)
+        return tuple(x + y for x, y in zip(a, b))
+    return a + b
+
+
+def _cle(a, bound):
+    if isinstance(a, tuple):
+        if not isinstance(bound, tuple):
+            return sum(a) <= bound
+        return all(x <= y for x, y in zip(a, bound))
+    if isinstance(bound, tuple):
+        return a <= bound[0]
+    return a <= bound
+
+
+def _cnonzero(a):
+    return any(a) if isinstance(a, tuple) else bool(a)
+
+
 class Nondeterminism(Exception):
     """Replaying a recorded prefix met a different choice point."""
 
@@ -50,7 +74,7 @@ class Chooser:
             c = 1 if idx else 0
         else:
             c = costs[idx]
-        self.cost += c
+        self.cost = _cadd(self.cost, c)
         self.trace.append((label, n, idx, costs))
         return idx
 
@@ -95,7 +119,27 @@ class Stats:
         }
 
 
-def explore(run_one, check, bound, prefix=(), stats=None, max_exec=None, order_seed=0):
+def first_level_prefixes(run_one, bound, prefix=()):
+    """Run the execution for ``prefix`` once and return the prefixes of its direct
+    children (one per admissible deviation).  explore(prefix=p) for each returned p plus
+    explore(prefix, root_only=True) together cover exactly explore(prefix)."""
+    ch = Chooser(list(prefix))
+    run_one(ch)
+    tr = ch.trace
+    out = []
+    cost = 0
+    for i in range(len(tr)):
+        label, n, idx, costs = tr[i]
+        if i >= len(prefix):
+            for alt in range(1, n):
+                c = costs[alt] if costs is not None else 1
+                if _cle(_cadd(cost, c), bound):
+                    out.append(ch.choices[:i] + [alt])
+        cost = _cadd(cost, (costs[idx] if costs is not None else (1 if idx else 0)))
+    return out
+
+
+def explore(run_one, check, bound, prefix=(), stats=None, max_exec=None, order_seed=0, root_only=False):
     """Enumerate all executions with deviation cost <= bound below ``prefix``.
 
     run_one(chooser) -> observation (must be deterministic given the choices)
@@ -120,10 +164,10 @@ def explore(run_one, check, bound, prefix=(), stats=None, max_exec=None, order_s
                 % (len(tr), len(pfx))
             )
         stats.max_depth = max(stats.max_depth, len(tr))
-        stats.max_cost = max(stats.max_cost, ch.cost)
+        stats.max_cost = max(stats.max_cost, sum(ch.cost) if isinstance(ch.cost, tuple) else ch.cost)
         h = obs_hash(obs)
         stats.distinct.add(h)
-        if ch.cost:
+        if _cnonzero(ch.cost):
             stats.distinct_nontrivial.add(h)
         check(ch, obs)
         # schedule children: deviate at every point after the replayed prefix
@@ -131,7 +175,9 @@ def explore(run_one, check, bound, prefix=(), stats=None, max_exec=None, order_s
         cost = 0
         for i in range(start):
             t = tr[i]
-            cost += (t[3][t[2]] if t[3] is not None else (1 if t[2] else 0))
+            cost = _cadd(cost, (t[3][t[2]] if t[3] is not None else (1 if t[2] else 0)))
+        if root_only:
+            break
         choices = ch.choices
         expect_all = [(t[0], t[1]) for t in tr]
         children = []
@@ -140,10 +186,10 @@ def explore(run_one, check, bound, prefix=(), stats=None, max_exec=None, order_s
             stats.choice_points += 1
             for alt in range(1, n):
                 c = costs[alt] if costs is not None else 1
-                if cost + c <= bound:
+                if _cle(_cadd(cost, c), bound):
                     children.append((choices[:i] + [alt], expect_all[: i + 1]))
                     stats.edges += 1
-            cost += (costs[idx] if costs is not None else (1 if idx else 0))
+            cost = _cadd(cost, (costs[idx] if costs is not None else (1 if idx else 0)))
         if order_seed % 2:
             children.reverse()
         stack.extend(children)
